@@ -317,6 +317,10 @@ func runC04(c *Ctx) {
 				if !guarded {
 					bad = append(bad, fmt.Sprintf("the predicate on %s is not guarded by %s != nil: a query without that field compares with NULL", col, f))
 				}
+				if len(wf.ExtraGuards) > 0 {
+					queryFieldGuard[f] = false
+					bad = append(bad, fmt.Sprintf("the predicate on %s is added only if also %s: for the other values of the field the query matches rows regardless of it", col, strings.Join(wf.ExtraGuards, " and ")))
+				}
 			}
 		}
 		r.Check(len(bad) == 0, "R04.3", fn, "Where("+wf.Text+")", p.Pos(wf.Call.Pos()),
